@@ -152,15 +152,6 @@ theorem C10_abundant (el : Elem) (hel : el ∈ liveTable) (q : Int) :
 
 /-! ## Totals -/
 
-theorem sumR_cons (x : Rat) (l : List Rat) : sumR (x :: l) = x + sumR l := by
-  have : ∀ (l : List Rat) (a : Rat), l.foldl (· + ·) a = a + l.foldl (· + ·) 0 := by
-    intro l
-    induction l with
-    | nil => intro a; simp
-    | cons y t ih => intro a; simp only [List.foldl_cons]; rw [ih (a + y), ih (0 + y)]; ring
-  simp only [sumR, List.foldl_cons]
-  rw [this l (0 + x)]; ring
-
 /-- the `sum` row of `data_composite`: total mass, proton, neutron and electron numbers are the
     count-weighted sums of the per-species data -/
 theorem C10_totals (p : Rat) (d : EData) (rows : List (Rat × EData)) :
